@@ -380,7 +380,7 @@ def run(tier, seed):
     out = {}
     th = threading.Thread(target=lambda: out.setdefault("b", behavioural(ck, binp, tier, dist)))
     th.start()
-    sc = structural(ck, binp, seed, 60 if quick else 500, dist)
+    sc = structural(ck, binp, seed, 60 if quick else 1200, dist)
     wc = closed_word(ck, binp, seed, 40 if quick else 600, dist)
     th.join()
     bc = out.get("b") or []
